@@ -185,8 +185,12 @@ Definition engine_trace (k : icase) : list ostep :=
   exec (k_names k) (k_flows k) (r_pick (k_flows k) (k_trace k)) (r_act (k_flows k) (k_trace k)) (r_touch (k_trace k))
        (k_msg_trigger k) 400 (k_start k) (k_history k).
 
+(* ... and the trace the engine computes is itself accepted by the step acceptor (engine traces are a subset of accepted
+   traces: proved for no more than these cases, see level_note) *)
 Definition replay_ok (k : icase) : bool :=
-  if k_exec k then steps_match (k_trace k) (engine_trace k) else true.
+  if k_exec k
+  then steps_match (k_trace k) (engine_trace k) && accepts (k_names k) (k_flows k) (engine_trace k)
+  else true.
 
 Definition check (k : icase) : bool :=
   forallb (results_ok (k_flows k)) (k_inspections k)
